@@ -600,16 +600,38 @@ fn c17(r: &mut Rep) {
         if m.starts_with("enum") && (h != "B" || n.contains("existing")) { continue; }   // enum x into_existing: recorded open defect (DESIGN section 6)
         inputs.push(format!("#[{}({}{})]\n{}", n, h, if n.contains("try") { ", E" } else { "" }, m));
     } } }
+    // nested children of mixed form: named / positional at each level, by hint or by the own struct's form; ghost-only levels
+    let hints = ["", " as ()", " as {}"];
+    for own_tuple in [false, true] {
+        for ho in hints { for hi in hints { for content in ["ghost", "field", "both"] { for ren in [false, true] {
+            let outer_tuple = ho == " as ()" || (ho.is_empty() && own_tuple);
+            let inner_tuple = hi == " as ()" || (hi.is_empty() && own_tuple);
+            let base = if own_tuple { "1" } else { "base" };
+            let k = if outer_tuple { "1" } else { "inner" };
+            let g = if inner_tuple { "0" } else { "x" };
+            let r1 = if ren { if outer_tuple { "#[map(0)] " } else { "#[map(number)] " } } else { "" };
+            let r2 = if ren { if inner_tuple { "#[map(0)] " } else { "#[map(deep)] " } } else { "" };
+            let ghosts = if content != "field" { format!("#[ghosts({}.{}@{}: {{ 123 }})]\n", base, k, g) } else { String::new() };
+            let deep = if content != "ghost" { if own_tuple { format!(", #[child({}.{})] {}i8", base, k, r2) } else { format!(", #[child({}.{})] {}deep: i8", base, k, r2) } } else { String::new() };
+            let item = if own_tuple { format!("struct D(i32, #[child({})] {}i16{});", base, r1, deep) } else { format!("struct D {{ id: i32, #[child({})] {}number: i16{} }}", base, r1, deep) };
+            for n in ["owned_into", "ref_into", "into_existing", "map", "try_map"] {
+                inputs.push(format!("#[{}(B{})]\n#[child_parents({}: TO{}, {}.{}: TI{})]\n{}{}", n, if n.contains("try") { ", E" } else { "" }, base, ho, base, k, hi, ghosts, item));
+            }
+        } } } }
+    }
     inputs.push("#[map(i32| _ => todo!())]\nenum A { #[literal(1)] V, #[pattern(2..=3)] #[into({ 2 })] W }".into());
     inputs.push("#[map(B)]\n#[ghosts(Z: { A::V })]\nenum A { V, #[ghost({ B::V })] W }".into());
+    let mut accepted = 0usize;
     for src in inputs {
         r.cases += 1;
         let out = match expand(&src) { Ok(o) => o, Err(_) => continue };   // only accepted inputs are in the statement
+        accepted += 1;
         let f: syn::File = match syn::parse_str(&out) { Ok(f) => f, Err(e) => { r.fail(&src, format!("the expansion is not a sequence of Rust items: {} :: {}", e, out.chars().take(400).collect::<String>())); continue; } };
         for it in &f.items {
             match it { syn::Item::Impl(i) => if let Err(e) = shape_ok(i) { r.fail(&src, e); break; }, o => { r.fail(&src, format!("not an impl item: {}", ts(o).chars().take(100).collect::<String>())); break; } }
         }
     }
+    eprintln!("accepted {}", accepted);
 }
 
 
